@@ -488,8 +488,16 @@ def make_fuzz_scheduler(cfg):
                 base = max(now, rel if rel is not None and rel >= 0 else now)
                 if rng.random() < cfg.get("p_future", 0.4):
                     base += rng.choice([1, 2, 3, 5, 10, 25])
+                    if cfg.get("coarse_units") and rng.random() < 0.5:
+                        base = (base // 1000 + 1) * 1000          # the next instant that is exact in milliseconds
+                ptime = coarse(base) if cfg.get("coarse_units") else EventTime(base, EventTime.Unit.US)
+                wid = None
+                if rng.random() < cfg.get("p_worker", 0.0):
+                    fitting = [w for w in pool.workers if deepcopy(w).can_accomodate_strategy(strat)]
+                    if fitting:
+                        wid = rng.choice(fitting).id
                 placements.append(Placement.create_task_placement(
-                    task=task, placement_time=EventTime(base, EventTime.Unit.US), worker_pool_id=pool.id,
+                    task=task, placement_time=ptime, worker_pool_id=pool.id, worker_id=wid,
                     execution_strategy=strat))
             return Placements(runtime=EventTime(0, EventTime.Unit.US), true_runtime=EventTime(0, EventTime.Unit.US),
                               placements=placements)
@@ -511,6 +519,15 @@ def run_with_fuzz_scheduler(world):
                           loop_timeout=EventTime(FLAGS.loop_timeout, EventTime.Unit.US),
                           scheduler_frequency=EventTime(FLAGS.scheduler_frequency, EventTime.Unit.US), _flags=FLAGS)
     simulator.simulate()
+
+
+def coarse(v):
+    """the same instant in the coarsest EventTime unit that represents it exactly"""
+    if v > 0 and v % 10 ** 6 == 0:
+        return EventTime(v // 10 ** 6, EventTime.Unit.S)
+    if v > 0 and v % 1000 == 0:
+        return EventTime(v // 1000, EventTime.Unit.MS)
+    return EventTime(v, EventTime.Unit.US)
 
 
 def run_direct(world):
@@ -538,7 +555,7 @@ def run_direct(world):
         for t in g["tasks"]:
             job = Job(name=t["name"], profile=profs[t["profile"]])
             tasks[t["name"]] = Task(name=t["name"], task_graph=g["name"], job=job,
-                                    deadline=EventTime(t["deadline"], EventTime.Unit.US), timestamp=0,
+                                    deadline=coarse(t["deadline"]), timestamp=0,
                                     release_time=(EventTime(t["release"], EventTime.Unit.US) if "release" in t
                                                   else EventTime.invalid()))
         graphs[g["name"]] = TaskGraph(name=g["name"],
